@@ -75,9 +75,21 @@ impl<'a, W: Write> DocumentPrinter<'a, W> {
     /// Prints the given doc comments.
     pub fn docs(&mut self, docs: &[DocComment]) -> std::fmt::Result {
         for doc in docs {
-            for line in doc.comment.lines() {
+            // An empty comment still is a comment, and an empty line of a
+            // comment is printed without the trailing space
+            let mut lines = doc.comment.lines().peekable();
+            if lines.peek().is_none() {
                 self.indent()?;
-                write!(self.writer, "/// {line}", line = line.trim())?;
+                write!(self.writer, "///")?;
+                self.newline()?;
+            }
+
+            for line in lines {
+                self.indent()?;
+                match line.trim() {
+                    "" => write!(self.writer, "///")?,
+                    line => write!(self.writer, "/// {line}")?,
+                }
                 self.newline()?;
             }
         }
